@@ -172,4 +172,21 @@ theorem near_init_bv (g : Goal) (n v : Int) (h : near g (Interval.init g) = some
   unfold castOk at hv
   cases hd : g.dir <;> cases hdom : g.dom <;> simp only [hd, hdom] at h hv ⊢ <;> simp at h hv ⊢ <;> omega
 
+/-- the initial far bound is not beyond any representable value -/
+theorem far_init_bound (g : Goal) (f v : Int) (h : far g (Interval.init g) = some f)
+    (hv : castOk g.dom v = true) : sg g f ≤ sg g v := by
+  unfold far Interval.init at h
+  unfold sg
+  unfold castOk at hv
+  cases hd : g.dir <;> cases hdom : g.dom <;> simp only [hd, hdom] at h hv ⊢ <;> simp at h hv ⊢ <;> omega
+
+theorem init_not_empty (g : Goal) : (Interval.init g).empty = false := by
+  unfold Interval.init Interval.empty
+  cases hd : g.dir <;> cases hdom : g.dom <;> simp
+  all_goals
+    rename_i w
+    have h1 : (0 : Int) < 2 ^ w := Int.pow_pos (by decide)
+    have h2 : (0 : Int) < 2 ^ (w - 1) := Int.pow_pos (by decide)
+    omega
+
 end PySMT.Opt
